@@ -73,6 +73,8 @@ class PTable(EngineBase):
                  "root": rng.random() < 0.8,
                  "listdir_order": rng.choice(["sorted", "reversed", "o7"]),
                  "mono0": 50000.0 + rng.randrange(0, 500)}
+        if prop == "C02" and rng.random() < 0.12:
+            world["wall_offset"] = rng.choice([0.25, 37.5, 1000.75, 86400.5])
         if prop == "C05":
             self._scramble_tree(rng, world)
         if prop == "C04":
@@ -132,6 +134,11 @@ class PTable(EngineBase):
             delta = rng.choice([0.5, -0.5, 1.0, -1.0, 3600.0, -3600.0,
                                 86400.0 * 3, -0.01, 0.01, 2.0, -2.0,
                                 rng.randrange(-500, 500) / 100.0])
+            if world.get("wall_offset", 1e9) < 1e6 and rng.random() < 0.6:
+                # a board without RTC boots at the epoch and is set to the
+                # real date later (the boot time changes magnitude)
+                delta = 1.7e9 + rng.randrange(0, 10 ** 6) + rng.choice(
+                    [0.0, 0.25, 0.5])
             return {"ev": "clock_step", "delta": delta}
         if r < 0.30:
             return self.new_proc_ev(rng, pid, pool, "reuse")
